@@ -231,7 +231,8 @@ func genPoolMinBal(r *rand.Rand, idx int, emit func(string)) {
 	g.cfg("1000", minute, minS, 0, "off", "off", true)
 	// hosts: with a minimum configured a brand-new host has balance 0 and must still be accepted
 	g.host("n0", "c0", "3.3.3.1", "geth")
-	g.host("n1", pick(r, []string{"c1", "~"}), "3.3.3.2", "geth")
+	// (sometimes both hosts sit behind one connection: a cut-off still tells each of them)
+	g.host("n1", pick(r, []string{"c1", "~", "c0", "c0"}), "3.3.3.2", "geth")
 	// the client's balance: deposit + credit placed around the minimum
 	total := min + []int64{-1, 0, 1, 1000, 999, 1001, 2000, -1000}[r.Intn(8)]
 	dep := []int64{0, total, total / 2, -7, total + 5}[r.Intn(5)]
@@ -367,6 +368,13 @@ func genPoolPeers(r *rand.Rand, idx int, emit func(string)) {
 	}
 	g.client("n7", pick(r, kinds), "good")
 	g.client("n6", "geth", "good")
+	upHost := ""
+	if idx%4 == 1 {
+		// a host registered under the upper-case spelling of its id (same key; another node to the store): once the
+		// client reports it as a peer it is not offered again
+		upHost = pick(r, []string{"n0up", "n1up"})
+		g.host(upHost, "c"+strconv.Itoa(nh+3), "5.5.5.9", "geth")
+	}
 	// some hosts become stale (no keep-alive within the window), some are not hosts at all
 	for i := 0; i < nh; i++ {
 		switch r.Intn(7) {
@@ -381,6 +389,12 @@ func genPoolPeers(r *rand.Rand, idx int, emit func(string)) {
 		g.update("n7", "good", []string{"n0", "n" + strconv.Itoa(r.Intn(nh))}, 0)
 	}
 	g.dump()
+	if upHost != "" {
+		emit(fmt.Sprintf("peer n7 %s good num=%d kind=~ outcomes=", g.n(), nh+2))
+		g.update("n7", "good", []string{upHost, "n0"}, 0)
+		g.dump()
+		emit(fmt.Sprintf("peer n7 %s good num=%d kind=~ outcomes=", g.n(), nh+2))
+	}
 	if idx%5 == 3 {
 		// a host moves to a new connection and then back to the one it used before, which never closed: the pool
 		// instructs it over the connection it registered on last, and closing the other one changes nothing
@@ -423,6 +437,14 @@ func genPoolPeers(r *rand.Rand, idx int, emit func(string)) {
 			if r.Intn(4) == 0 {
 				// ... or somebody else's refused attempt to register under that host's identity: the registry must
 				// not move
+				if r.Intn(3) == 0 {
+					// ... or the host's own, correctly signed attempt that is refused for its address (another
+					// identity in the URI, an unparsable URI, no host at all): the registry must not move either
+					emit(fmt.Sprintf("connect c%d n%d %s good 1 geth %s src=~ payout=~", r.Intn(nh+2), h, g.n(),
+						pick(r, []string{fmt.Sprintf("uset=1 uhost=5.5.5.%d uport=~ uuser=n%d ubad=0", h, (h+1)%8), "uset=1 uhost=~ uport=~ uuser=~ ubad=1", fmt.Sprintf("uset=1 uhost=~ uport=~ uuser=n%d ubad=0", h), fmt.Sprintf("uset=1 uhost=:: uport=~ uuser=n%d ubad=0", h)})))
+					emit(fmt.Sprintf("close c%d", r.Intn(nh+2)))
+					break
+				}
 				emit(fmt.Sprintf("connect c%d n%d %s %s 1 geth uset=1 uhost=5.5.5.%d uport=~ uuser=n%d ubad=0 src=~ payout=~", r.Intn(nh+2), h, g.n(),
 					pick(r, []string{"bad", "otherkey", "garbage", "wrongnonce", "otherident"}), h, h))
 				break
